@@ -65,6 +65,43 @@ def crossfoldUsersT {β} (recs : List (IRec β)) (users : List Nat) (perm : List
 """)
     return text, "\n".join(segs), rel
 
+def translate_temporal(src_root):
+    """splitting/temporal.py `split_global_time`: the loop over the cut-off times (already converted by `_make_time`)"""
+    rel = "splitting/temporal.py"; src = open(os.path.join(src_root, rel)).read(); mod = ast.parse(src)
+    fn, b = body_of(mod, "split_global_time")
+    loops = [s for s in b if isinstance(s, ast.For)]
+    if len(loops) != 1 or U(loops[0].target) != "(i, t)" or U(loops[0].iter) != "enumerate(times)": raise Unsupported("split_global_time: the loop over the times")
+    lb = [s for s in strip(loops[0].body) if not (isinstance(s, ast.Assign) and U(s.targets[0]) == "tlog") and not (isinstance(s, ast.Expr) and U(s.value).startswith("tlog."))]
+    ifs = [s for s in lb if isinstance(s, ast.If)]
+    if len(ifs) != 2: raise Unsupported("split_global_time: two `if` steps expected in the loop")
+    k1, k2 = lb.index(ifs[0]), lb.index(ifs[1])
+    expect(lb[:k1], ["mask = ts_col >= t", "train_build = DatasetBuilder(data)", "train_build.filter_interactions(iname, max_time=t)", "t2 = end"], "split_global_time loop")
+    if U(ifs[0].test) != "i + 1 < len(times)" or ifs[0].orelse: raise Unsupported("split_global_time: the upper-bound step")
+    expect(ifs[0].body, ["t2 = times[i + 1]"], "split_global_time: the upper bound")
+    if lb[k1 + 1:k2]: raise Unsupported("split_global_time: statement between the two `if` steps")
+    if U(ifs[1].test) != "t2 is None": raise Unsupported("split_global_time: the `t2 is None` step")
+    expect(ifs[1].body, ["test = matrix[mask]"], "split_global_time: unbounded test window")
+    expect([s for s in strip(ifs[1].orelse) if not (isinstance(s, ast.Assign) and U(s.targets[0]) == "tlog") and not (isinstance(s, ast.Expr) and U(s.value).startswith("tlog."))],
+           ["test = matrix[mask & (ts_col < t2)]"], "split_global_time: bounded test window")
+    expect(lb[k2 + 1:], ["train_ds = train_build.build()", "test_ilc = ItemListCollection.from_df(test, ['user_id'])", "results.append(TTSplit(train_ds, test_ilc))"], "split_global_time: results")
+    text = ("""/-- one round of the loop of `split_global_time`: cut-off `t` at position `i` of `times`; `filter_interactions(max_time=t)` keeps the
+    records strictly before `t` -/
+def globalTimeRoundT {β} (recs : List (IRec β)) (times : List Int) (end_ : Option Int) (i : Nat) (t : Int) : List (IRec β) × List (IRec β) :=
+  let mask := recs.map (fun r => decide (t ≤ r.t))
+  let train_build := recs.filter (fun r => decide (r.t < t))
+  let t2 := end_
+  let t2 := if i + 1 < times.length then times[i + 1]? else t2
+  let test := match t2 with
+    | none => selectMask recs mask
+    | some t2 => selectMask recs (List.zipWith (fun a b => a && b) mask (recs.map (fun r => decide (r.t < t2))))
+  (train_build, test)
+
+/-- `split_global_time`: one split per cut-off -/
+def splitGlobalTimeT {β} (recs : List (IRec β)) (times : List Int) (end_ : Option Int) : List (List (IRec β) × List (IRec β)) :=
+  (List.range times.length).map (fun i => globalTimeRoundT recs times end_ i (times.getD i 0))
+""")
+    return text, ast.get_source_segment(src, loops[0]), rel
+
 def body_of(mod, name):
     fns = [f for f in mod.body if isinstance(f, ast.FunctionDef) and f.name == name]
     if not fns: raise Unsupported(f"{name} not found")
@@ -130,11 +167,12 @@ def disjointSamplesT (perm : List Nat) (size reps : Nat) : List (List Nat) :=
     pySlice xs start end_)
 """)
     utext, useg, urel = translate_users(src_root)
-    seg = "\n".join(segs) + "\n" + useg
+    ttext, tseg, trel = translate_temporal(src_root)
+    seg = "\n".join(segs) + "\n" + useg + "\n" + tseg
     return ("import LK.Model.SplitOps\n/-! GENERATED by translate/py2lean_split.py on every run of `./check C05`; do not edit.\n"
-            f"* `makePairT`, `crossfoldRecordsT`, `disjointSamplesT` ← {rel} _make_pair, crossfold_records, _disjoint_samples; `makeSplitT`, `crossfoldUsersT` ← {urel} _make_split, crossfold_users; source sha256/64 {hashlib.sha256(seg.encode()).hexdigest()[:16]}\n"
+            f"* `makePairT`, `crossfoldRecordsT`, `disjointSamplesT` ← {rel} _make_pair, crossfold_records, _disjoint_samples; `makeSplitT`, `crossfoldUsersT` ← {urel} _make_split, crossfold_users; `globalTimeRoundT`, `splitGlobalTimeT` ← {trel} split_global_time (the loop); source sha256/64 {hashlib.sha256(seg.encode()).hexdigest()[:16]}\n"
             "    - records are list positions of `df`; `perm` is the index array after `rng.shuffle`\n-/\n"
-            "set_option linter.unusedVariables false\nnamespace LK.Gen.SplitC05\nopen LK.Split LK.SplitOps\n\n" + make_pair + "\n" + crossfold + "\n" + disjoint + "\n" + utext + "\nend LK.Gen.SplitC05\n")
+            "set_option linter.unusedVariables false\nnamespace LK.Gen.SplitC05\nopen LK.Split LK.SplitOps\n\n" + make_pair + "\n" + crossfold + "\n" + disjoint + "\n" + utext + "\n" + ttext + "\nend LK.Gen.SplitC05\n")
 
 if __name__ == "__main__":
     print(translate(sys.argv[1] if len(sys.argv) > 1 else "/repo/src/lenskit"))
